@@ -6,6 +6,13 @@ O10 == <<1, 0>>
 O012 == <<0, 1, 2>>
 O201 == <<2, 0, 1>>
 O120 == <<1, 2, 0>>
+NoCnfs == {}
+Lits == {x \in (0 - NV) .. NV : x # 0}
+SortedCl(w) == {c \in [1 .. w -> Lits] : \A i, j \in 1 .. w : i < j => (AbsL(c[i]) < AbsL(c[j]) \/ (AbsL(c[i]) = AbsL(c[j]) /\ c[i] < c[j]))}
+Cls == SortedCl(1) \cup SortedCl(2) \cup {<< >>}
+Cnfs2 == {<< >>} \cup {<<c>> : c \in Cls} \cup {<<c, d>> : c, d \in Cls}
+Cnfs3 == {<<c, d, e>> : c, d, e \in SortedCl(1) \cup SortedCl(2)}
+CnfOps == {"cnf", "cond"}
 AllOps == {"ite", "and", "or", "xor", "iff", "cond", "exists", "compose"}
 BinOps == {"and", "xor", "cond", "exists"}
 IteOnly == {"ite"}
